@@ -130,6 +130,20 @@ var AccessHook func(addr uintptr, size uintptr, kind OpKind)
 // operation (lock, unlock, atomics, ...), just before it performs it.
 var OpHook func(t *Thread, op Op)
 
+// FaultClassifier, when set, maps the address of a memory fault (a panic raised through
+// debug.SetPanicOnFault) to a violation kind; "" keeps the generic "panic".
+var FaultClassifier func(addr uintptr) string
+
+func panicVerdict(r interface{}) Verdict {
+	v := Verdict{Kind: "panic", Msg: fmt.Sprintf("%v\n%s", r, trimStack(debug.Stack())), Site: panicSite(), FaultAddr: faultAddr(r)}
+	if v.FaultAddr != 0 && FaultClassifier != nil {
+		if k := FaultClassifier(v.FaultAddr); k != "" {
+			v.Kind = k
+		}
+	}
+	return v
+}
+
 type abortSentinel struct{}
 
 // NondeterminismError is raised (as a panic out of Run) when a replayed prefix diverges.
@@ -530,7 +544,7 @@ func GoNamed(name string, fn func()) *Thread {
 				}
 				// real panic inside the code under test
 				if x.Verdict.Kind == "" {
-					x.Verdict = Verdict{Kind: "panic", Msg: fmt.Sprintf("%v\n%s", r, trimStack(debug.Stack())), Site: panicSite(), FaultAddr: faultAddr(r)}
+					x.Verdict = panicVerdict(r)
 				}
 				x.threadCrashed(t)
 			}
@@ -695,7 +709,7 @@ func Run(prefix []int, expect []Choice, tracing bool, horizon int, body func()) 
 					return
 				}
 				if x.Verdict.Kind == "" {
-					x.Verdict = Verdict{Kind: "panic", Msg: fmt.Sprintf("%v\n%s", r, trimStack(debug.Stack())), Site: panicSite(), FaultAddr: faultAddr(r)}
+					x.Verdict = panicVerdict(r)
 				}
 			}
 		}()
@@ -719,5 +733,6 @@ func Run(prefix []int, expect []Choice, tracing bool, horizon int, body func()) 
 	X = nil
 	AccessHook = nil
 	OpHook = nil
+	FaultClassifier = nil
 	return Result{Choices: x.Choices, Steps: x.Steps, Switches: x.Switches, Verdict: x.Verdict, Notes: x.Notes, Trace: x.Trace, ObsHash: x.ObsHash}
 }
